@@ -37,7 +37,7 @@ type c19Name struct {
 }
 
 func TestVfC19Prefetch(t *testing.T) {
-	st := vfkit.Stats("TestVfC19Prefetch", "runs of 20-80 independent names: TTL in {8,12} s, entries primed for 1-3 client groups, then a burst of 1-120 concurrent hits per group at a drawn instant inside the last quarter of the lifetime; the upstream holds the refresh reply until all burst responses are collected (or 3 s), then the refresh ends as success (new TTL) / NXDOMAIN / SERVFAIL / garbage / silence; oracles: every hit of the burst is answered from the old entry while the refresh is held, at most one refresh per group is in flight, after a successful refresh later hits carry the new fetch, after a failed or negative refresh the old entry is served until its expiry and not 2 s beyond; non-trivial = burst >= 2 inside the window")
+	st := vfkit.Stats("TestVfC19Prefetch", "runs of 20-80 independent names: TTL in {8,12} s, entries primed for 1-3 client groups, then a burst of 1-120 concurrent hits per group at a drawn instant inside the last quarter of the lifetime; the upstream holds the refresh reply until all burst responses are collected (or 3 s), then the refresh ends as success (new TTL) / NXDOMAIN / SERVFAIL / REFUSED / garbage / silence; oracles: every hit of the burst is answered from the old entry while the refresh is held, at most one refresh per group is in flight, after a successful refresh later hits carry the new fetch, after a failed or negative refresh the old entry is served until its expiry and not 2 s beyond; non-trivial = burst >= 2 inside the window")
 	defer vfkit.Flush()
 	block := NextIPBlock()
 	var names sync.Map
@@ -70,6 +70,8 @@ func TestVfC19Prefetch(t *testing.T) {
 				a.Reply = EncodeMsg(m)
 			case "servfail":
 				a.Reply = EncodeMsg(KeyedAnswer(q.Msg, "c19", uint32(q.Seq), 30, 2))
+			case "refused":
+				a.Reply = EncodeMsg(KeyedAnswer(q.Msg, "c19", uint32(q.Seq), 30, 5))
 			case "garbage":
 				a.Reply = []byte{q.Raw[0], q.Raw[1], 0x81, 0x80, 0xff, 0xff, 0xff, 0xff, 0, 0, 0, 0}
 			}
@@ -119,7 +121,7 @@ func TestVfC19Prefetch(t *testing.T) {
 			// lifetime remain, and 150 ms after the start of the window.
 			q := time.Duration(n.ttl) * time.Second / 4
 			n.burstAt = 3*q + 150*time.Millisecond + time.Duration(rapid.IntRange(0, int((q-1450*time.Millisecond)/time.Millisecond)).Draw(t, "intoWindowMs"))*time.Millisecond
-			n.outcome = rapid.SampledFrom([]string{"success", "success", "nxdomain", "servfail", "garbage", "silence"}).Draw(t, "outcome")
+			n.outcome = rapid.SampledFrom([]string{"success", "success", "nxdomain", "servfail", "refused", "garbage", "silence"}).Draw(t, "outcome")
 			n.newTTL = rapid.SampledFrom([]uint32{30, 60}).Draw(t, "newTTL")
 			all[i] = n
 			names.Store(n.label, n)
